@@ -28,6 +28,20 @@ CLAIMED["C14"] = (
     "DESIGN.md section 6, C14",
 )
 
+CLAIMED["C16"] = (
+    "Coq theorems for all rationals: create_range_dim = lattice start+i*step with exactly ceil(q-1/2) points (hence n when "
+    "q=(stop-start)/step is whole, and robust to any |q-n|<1/2), every coordinate in [start,stop), step attribute; size and "
+    "samplerate variants; get_coord_index on any strictly increasing axis returns the unique i with c[i]<=v<c[i+1] (last "
+    "index at the upper edge), KeyError or clamp (0 / size) outside; set_value_at_pos writes exactly the addressed cells "
+    "(scalar and block values), every other cell and the length unchanged. Model tied to /repo/src by differential run: "
+    "dyadic stream exact, decimal stream (0.1, 1/3, 1/44100 ...) counts exact and coordinates to 1e-9.",
+    "Trusted: Coq kernel/vm_compute; hand-written model of dimensions.py/operations.py; np.arange length/fill rule and "
+    "pandas get_slice_bound re-implemented in Gallina (correspondence-checked); float rounding not modelled (decimal stream "
+    "generated with the quotient within 1/4 of a whole number, where the proved count is rounding-robust).",
+    "Rocq/Coq proof over Q + model/implementation correspondence by vm_compute",
+    "DESIGN.md section 6, C16",
+)
+
 NOT_YET = {}
 
 
